@@ -67,6 +67,20 @@ Interp(r) ==
                         @@ ("heat_min_temperature" :> r.data[5]) @@ ("heat_max_temperature" :> r.data[6])
                         @@ ("decimals" :> (IF sz > 6 THEN r.data[7] # 0 ELSE TRUE))
     [] OTHER -> Empty
+(* ---- what the device object derives from a capability set (documented meaning of the supports_* flags) ---- *)
+Has(c, k) == k \in DOMAIN c /\ c[k] = TRUE
+DeriveFlags(c) ==
+  [ breeze_away |-> Has(c, "breeze_away") \/ Has(c, "breeze_control"),          \* breeze control supersedes the legacy flags, it does not hide them
+    breeze_mild |-> Has(c, "breeze_control"),
+    breezeless |-> Has(c, "breezeless") \/ Has(c, "breeze_control"),
+    ieco |-> Has(c, "ieco"), v_angle |-> Has(c, "swing_vertical_angle"), h_angle |-> Has(c, "swing_horizontal_angle"),
+    self_clean |-> Has(c, "self_clean"), eco |-> Has(c, "eco"), turbo |-> Has(c, "turbo_heat") \/ Has(c, "turbo_cool"),
+    freeze |-> Has(c, "freeze_protection"), display |-> Has(c, "display_control"), filter |-> Has(c, "filter_notice"),
+    purifier |-> Has(c, "anion"), custom_fan |-> Has(c, "fan_custom"),
+    humidity |-> Has(c, "humidity_auto_set") \/ Has(c, "humidity_manual_set"), target_humidity |-> Has(c, "humidity_manual_set") ]
+FlagsOf(a) == [ breeze_away |-> a.breeze_away, breeze_mild |-> a.breeze_mild, breezeless |-> a.breezeless, ieco |-> a.ieco, v_angle |-> a.v_angle,
+                h_angle |-> a.h_angle, self_clean |-> a.self_clean, eco |-> a.eco, turbo |-> a.turbo, freeze |-> a.freeze, display |-> a.display,
+                filter |-> a.filter, purifier |-> a.purifier, custom_fan |-> a.custom_fan, humidity |-> a.humidity, target_humidity |-> a.target_humidity ]
 RECURSIVE InterpAll(_)
 InterpAll(rs) == IF rs = <<>> THEN <<>> ELSE <<Interp(Head(rs))>> \o InterpAll(Tail(rs))
 ParseCaps(p) == MergeAll(InterpAll(RecordsOf(p)))
